@@ -1,5 +1,5 @@
 SPECIFICATION Spec
 CONSTANTS
   Methods = {"RollingInPlace", "RollingRecreate"}
-INVARIANTS C10_AllAgree Emit
+INVARIANTS C10_AllAgree C04_RevisionsLikeChildren Emit
 CHECK_DEADLOCK FALSE
